@@ -98,6 +98,9 @@ def run(chk):
         for l, m in zip(lines, model_out):
             if l.startswith('kexenc') and m.startswith('OK '):
                 dec_lines.append('kexdec ' + m[3:])
+                if rng.random() < 0.5:      # a boolean octet other than 0 / 1 is TRUE (RFC 4251 section 5)
+                    h = m[3:]
+                    dec_lines.append('kexdec ' + h[:-10] + '%02x' % rng.choice([2, 3, 0x7f, 0x80, 0xff]) + h[-8:])
         m2 = common.run_model(dec_lines)
         for l, m in zip(dec_lines, m2):
             i = impl.impl_line(l)
